@@ -52,7 +52,7 @@ Range(q) == {q[i] : i \in DOMAIN q}
 (* ------------------------------------------------------------------------ *)
 (* token tables (checked against the real code by the harness at start-up)  *)
 (* ------------------------------------------------------------------------ *)
-NumPool   == -3..16 \cup {60, 1024}
+NumPool   == -5..16 \cup {60, 1024}
 HalfPool  == -8..34
 IntOfStr  == [s \in {ToString(n) : n \in NumPool} |-> CHOOSE n \in NumPool : ToString(n) = s]
 FloatToks == {"%f:" \o ToString(h) : h \in HalfPool}     \* the %f rendering of h/2, e.g. "1.500000"
@@ -162,7 +162,8 @@ FieldsDef(o) ==
       [] o = "Unit"       -> {Req_("name_long_plural", T0("str")), Req_("name_long_singular", T0("str")),
                               Req_("name_short_plural", T0("str")), Req_("name_short_singular", T0("str"))}
       [] o = "Units"      -> {Req_("base_unit", TObj("Unit")),
-                              Opt_("multipliers", TMapOf(T0("int"), TObj("Unit"), 0))}
+                              \* a multiplier says how many base units the unit is worth: it is positive
+                              Opt_("multipliers", TMapOf(T0("pos"), TObj("Unit"), 0))}
       [] o = "StepOutput" -> {DisplayFld, Fld("error", T0("bool"), FALSE, Some(B(FALSE))), Req_("schema", ScopeT)}
       [] o = "Signal"     -> {DisplayFld, Req_("id", T0("id")), Req_("data_schema", ScopeT)}
       [] o = "Step"       -> {DisplayFld, Req_("id", T0("id")), Req_("input", ScopeT),
@@ -207,6 +208,7 @@ Acc(t, n) ==
       [] t.mt = "int"      -> CanInt(n)
       [] t.mt = "intbound" -> CanInt(n) /\ (IntBoundsNonNeg => IntOf(n) >= 0)
       [] t.mt = "nat"      -> CanInt(n) /\ IntOf(n) >= 0
+      [] t.mt = "pos"      -> CanInt(n) /\ IntOf(n) >= 1
       [] t.mt = "float"    -> CanFloat(n)
       [] t.mt = "bool"     -> CanBool(n)
       [] t.mt = "pattern"  -> CanStr(n) /\ StrOf(n) \notin BadPats
@@ -226,7 +228,7 @@ ObjNorm(o, n) ==
           f \in {g \in Fields(o) : Has(n, g.name) \/ g.def.some}})
 Norm(t, n) ==
     CASE t.mt \in {"id", "str", "str1", "pattern"} -> S(StrOf(n))
-      [] t.mt \in {"int", "intbound", "nat"}        -> N(IntOf(n))
+      [] t.mt \in {"int", "intbound", "nat", "pos"} -> N(IntOf(n))
       [] t.mt = "float"  -> F(HalfOf(n))
       [] t.mt = "bool"   -> B(BoolOf(n))
       [] t.mt = "list"   -> L([i \in DOMAIN n.v |-> Norm(t.mv, n.v[i])])
